@@ -9,8 +9,11 @@
 //!
 //! Nothing in here draws randomness or reads a clock.
 
+use std::borrow::Borrow;
 use std::cell::Cell;
-use std::collections::hash_map::{IntoIter, Iter, IterMut};
+use std::collections::hash_map::{
+    Drain, Entry, IntoIter, IntoKeys, IntoValues, Iter, IterMut, Keys, Values, ValuesMut,
+};
 use std::collections::HashMap as StdHashMap;
 use std::fmt;
 use std::hash::{BuildHasher, Hash, Hasher};
@@ -141,6 +144,148 @@ impl<K, V> HashMap<K, V> {
     /// See `std::collections::HashMap::with_capacity`.
     pub fn with_capacity(capacity: usize) -> Self {
         HashMap(StdHashMap::with_capacity_and_hasher(capacity, SimBuildHasher::default()))
+    }
+}
+
+// The commonly used part of the std API as inherent methods, so that calls resolve on this type
+// by auto-ref exactly as they do on `std::collections::HashMap` (a call that goes through
+// `DerefMut` borrows the receiver before its arguments are evaluated, which rejects code such as
+// `map.reserve(n - map.len())` that compiles fine against the real map). Everything else is still
+// reachable through `Deref`/`DerefMut`.
+impl<K, V> HashMap<K, V> {
+    /// See `std::collections::HashMap::len`.
+    pub fn len(&self) -> usize {
+        self.0.len()
+    }
+
+    /// See `std::collections::HashMap::is_empty`.
+    pub fn is_empty(&self) -> bool {
+        self.0.is_empty()
+    }
+
+    /// See `std::collections::HashMap::capacity`.
+    pub fn capacity(&self) -> usize {
+        self.0.capacity()
+    }
+
+    /// See `std::collections::HashMap::clear`.
+    pub fn clear(&mut self) {
+        self.0.clear()
+    }
+
+    /// See `std::collections::HashMap::iter`.
+    pub fn iter(&self) -> Iter<'_, K, V> {
+        self.0.iter()
+    }
+
+    /// See `std::collections::HashMap::iter_mut`.
+    pub fn iter_mut(&mut self) -> IterMut<'_, K, V> {
+        self.0.iter_mut()
+    }
+
+    /// See `std::collections::HashMap::keys`.
+    pub fn keys(&self) -> Keys<'_, K, V> {
+        self.0.keys()
+    }
+
+    /// See `std::collections::HashMap::values`.
+    pub fn values(&self) -> Values<'_, K, V> {
+        self.0.values()
+    }
+
+    /// See `std::collections::HashMap::values_mut`.
+    pub fn values_mut(&mut self) -> ValuesMut<'_, K, V> {
+        self.0.values_mut()
+    }
+
+    /// See `std::collections::HashMap::into_keys`.
+    pub fn into_keys(self) -> IntoKeys<K, V> {
+        self.0.into_keys()
+    }
+
+    /// See `std::collections::HashMap::into_values`.
+    pub fn into_values(self) -> IntoValues<K, V> {
+        self.0.into_values()
+    }
+
+    /// See `std::collections::HashMap::drain`.
+    pub fn drain(&mut self) -> Drain<'_, K, V> {
+        self.0.drain()
+    }
+
+    /// See `std::collections::HashMap::retain`.
+    pub fn retain<F: FnMut(&K, &mut V) -> bool>(&mut self, f: F) {
+        self.0.retain(f)
+    }
+}
+
+impl<K: Eq + Hash, V> HashMap<K, V> {
+    /// See `std::collections::HashMap::reserve`.
+    pub fn reserve(&mut self, additional: usize) {
+        self.0.reserve(additional)
+    }
+
+    /// See `std::collections::HashMap::shrink_to_fit`.
+    pub fn shrink_to_fit(&mut self) {
+        self.0.shrink_to_fit()
+    }
+
+    /// See `std::collections::HashMap::entry`.
+    pub fn entry(&mut self, key: K) -> Entry<'_, K, V> {
+        self.0.entry(key)
+    }
+
+    /// See `std::collections::HashMap::insert`.
+    pub fn insert(&mut self, k: K, v: V) -> Option<V> {
+        self.0.insert(k, v)
+    }
+
+    /// See `std::collections::HashMap::get`.
+    pub fn get<Q: ?Sized + Hash + Eq>(&self, k: &Q) -> Option<&V>
+    where
+        K: Borrow<Q>,
+    {
+        self.0.get(k)
+    }
+
+    /// See `std::collections::HashMap::get_key_value`.
+    pub fn get_key_value<Q: ?Sized + Hash + Eq>(&self, k: &Q) -> Option<(&K, &V)>
+    where
+        K: Borrow<Q>,
+    {
+        self.0.get_key_value(k)
+    }
+
+    /// See `std::collections::HashMap::get_mut`.
+    pub fn get_mut<Q: ?Sized + Hash + Eq>(&mut self, k: &Q) -> Option<&mut V>
+    where
+        K: Borrow<Q>,
+    {
+        self.0.get_mut(k)
+    }
+
+    /// See `std::collections::HashMap::contains_key`.
+    pub fn contains_key<Q: ?Sized + Hash + Eq>(&self, k: &Q) -> bool
+    where
+        K: Borrow<Q>,
+    {
+        self.0.contains_key(k)
+    }
+
+    /// See `std::collections::HashMap::remove`.
+    pub fn remove<Q: ?Sized + Hash + Eq>(&mut self, k: &Q) -> Option<V>
+    where
+        K: Borrow<Q>,
+    {
+        self.0.remove(k)
+    }
+
+    /// See `std::collections::HashMap::remove_entry`.
+    pub fn remove_entry<Q: ?Sized + Hash + Eq>(&mut self, k: &Q) -> Option<(K, V)>
+    where
+        K: Borrow<Q>,
+    {
+        self.0.remove_entry(k)
     }
 }
 
